@@ -78,9 +78,19 @@ def main : IO Unit := do
   IO.println s!"viol\t\{\"theorem\": \"branded_invariant\", \"entries\": {jl (table.violInvariant.map q)}}"
   IO.println s!"viol\t\{\"theorem\": \"not_send_not_sync\", \"entries\": {jl (table.violNotSendSync.map q)}}"
   IO.println s!"viol\t\{\"theorem\": \"builders_invariant_in_value_type\", \"entries\": {jl (table.violBuilders.map q)}}"
+  IO.println s!"viol\t\{\"theorem\": \"required_builder_rows\", \"entries\": {jl (((requiredBuilderRows.filter (fun r => !(table.builderRows.contains r && table.builderOk r))).map (fun r => r.1 ++ "<" ++ r.2 ++ ">")).map q)}}"
+  IO.println s!"viol\t\{\"theorem\": \"brand_sites_behind_callbacks\", \"entries\": {jl (table.violBrandSites.map q)}}"
+  let bsp : List String :=
+    (if table.brandSources.length < 2 then ["fewer than two brand sources found"] else []) ++
+    (if table.brandSites.length < 8 then ["fewer than eight brand-creating sites found"] else []) ++
+    (requiredCallbacks.filter (fun n => !(table.brandSites.any (fun b => b.fn_ == n) || table.callSites.any (fun cs => cs.caller == n)))).map (fun n => n ++ " (no brand-creating site)")
+  IO.println s!"viol\t\{\"theorem\": \"brand_sites_present\", \"entries\": {jl (bsp.map q)}}"
+  IO.println s!"viol\t\{\"theorem\": \"collect_static_impls_present\", \"entries\": {jl (((["&", "Cell", "RefCell", "Static"].filter (fun h => !table.collectImpls.any (fun ci => ci.mustBeStatic && ci.selfTy.head == h))).map (fun h => "impl Collect for " ++ h ++ " (missing)")).map q)}}"
+  IO.println s!"viol\t\{\"theorem\": \"rebrand_sites_present\", \"entries\": {jl (((if table.rebrandSites.length < 1 then ["no re-branding site found in dynamic_roots.rs"] else []) ++ (if table.identityChecks < 1 then ["the identity check is applied nowhere"] else [])).map q)}}"
+  IO.println s!"viol\t\{\"theorem\": \"identity_check_is_comparison\", \"entries\": {jl (if identityCheckOk table.identityFns then [] else ((table.identityFns.map (fun f => f.qual ++ ": cmp=" ++ f.cmp ++ " lhs=" ++ toString f.lhsDeps ++ " rhs=" ++ toString f.rhsDeps)) ++ ["(contains is not a comparison of self with the handle)"]).map q)}}"
   IO.println s!"viol\t\{\"theorem\": \"no_explicit_auto_impls\", \"entries\": {jl (table.violAutoImpls.map q)}}"
   IO.println s!"viol\t\{\"theorem\": \"callbacks_present\", \"entries\": {jl ((requiredCallbacks.filter (fun n => (table.callbackNamed n).isNone)).map q)}}"
-  IO.println s!"viol\t\{\"theorem\": \"callbacks_higher_ranked\", \"entries\": {jl (((table.callbacks.filter (fun cb => !cb.ok)).map (·.name)).map q)}}"
+  IO.println s!"viol\t\{\"theorem\": \"callbacks_higher_ranked\", \"entries\": {jl (((table.clientCallbacks.filter (fun cb => !cb.ok)).map (·.name)).map q)}}"
   IO.println s!"viol\t\{\"theorem\": \"collect_static_only\", \"entries\": {jl (table.violCollect.map q)}}"
   IO.println s!"viol\t\{\"theorem\": \"transmutes_guarded\", \"entries\": {jl (table.violTransmutes.map q)}}"
   IO.println s!"viol\t\{\"theorem\": \"write_transparent\", \"entries\": {jl (if table.writeTransparent then [] else [q "Write"])}}"
